@@ -615,7 +615,15 @@ def _ceil(ip, fv, args, kwargs, pure):
 
 @model("os.urandom")
 def _urandom(ip, fv, args, kwargs, pure):
-    raise Unsupported("direct call of os.urandom (entropy must come from entropy_f)")
+    # process-global entropy: modelled as a distinguished stream and LOGGED, so that the entropy clauses (C11/C16:
+    # "only from the supplied entropy function") are refuted instead of the function becoming undecided
+    _nargs(args, 1, "urandom")
+    n = args[0]
+    k = ip.ctx.entropy_pos.get(-1, IV(0))
+    t = sym.ENT(IV(-1), k, n if isinstance(n, int) else I(n))
+    ip.ctx.entropy_pos[-1] = z3.simplify(k + 1)
+    ip.ctx.entropy_log.append((-1, "os.urandom"))
+    return SBytes(t)
 
 
 @model("itertools.count")
